@@ -45,6 +45,12 @@ TEXT_FAULTS = [
     ("undefined_setting", "sub", "if (f1 == nosuch) cA > cB; endif;", "if (f1 == on) cA > cB; endif;", "", "", {"2114", "2120"}),
     ("duplicate_feature_ids", "sub", "cA > cB;", "cA > cB;", "FEAT:f2 { id = 100; }", "FEAT:f2 { id = 101; }", {"3152"}),
     ("rules_outside_pass", "sub", "cA > cB; pass(1) cB > cA; endpass;", "pass(1) cA > cB; cB > cA; endpass;", "", "", {"3102"}),
+    ("component_ref_to_inserted_item", "sub", "cA _ cB > cL:(1 3) {component {a.ref = @1; b.ref = @2}} cC:3 _;",
+     "cA _ cB > cL:(1 3) {component {a.ref = @1; b.ref = @3}} cC:3 _;", "LIG", "LIG", {"2144"}),
+    ("component_ref_out_of_range", "sub", "cA cB > cL:(1 2) {comp.a.ref = @1; comp.b.ref = @7} _;",
+     "cA cB > cL:(1 2) {comp.a.ref = @1; comp.b.ref = @2} _;", "LIG", "LIG", {"2142"}),
+    ("attr_value_from_inserted_item", "sub", "_ cA > cC:2 cB {user1 = @1.user1};", "_ cA > cC:2 cB {user1 = @2.user1};", "", "", {"2141"}),
+    ("constraint_reads_inserted_item", "sub", "_ cA > cC:2 cB / _ _ {@1.user1 == 1};", "_ cA > cC:2 cB / _ _ {@2.user1 == 1};", "", "", {"2141"}),
     ("attribute_wrong_role_feature", "sub", "cA > cB {f1 = cC};", "cA > cB {user1 = 1};", "", "", None),
 ]
 
@@ -69,6 +75,8 @@ def ir_faults():
 def build_text(table, stmt, glyph_extra):
     feat = FEATS
     gx = glyph_extra
+    if gx == "LIG":
+        gx = "cL = glyphid(10) {component.a = box(0, 0, 100m, 100m); component.b = box(100m, 0, 200m, 100m)};"
     if gx.startswith("FEAT:"):
         feat = FEATS.replace("endtable;", gx[5:] + " endtable;")
         gx = ""
